@@ -155,6 +155,25 @@ def m_vec_as_ptr(I, st, call):
     return [(st, PtrV(p, Aff.const(0), v.gen, call.path.endswith("as_mut_ptr")))]
 
 
+@model("core::slice::<impl [T]>::as_ptr")
+def m_slice_as_ptr(I, st, call):
+    s = as_slice(I, st, call.args[0], call.arg_tys[0])
+    if s is None or s.base is None:
+        return None
+    b = s.base
+    if isinstance(b, tuple) and b[0] == "vec" and isinstance(b[1], Place):
+        # a borrow of a vector's buffer: the pointer is into that vector (which cannot change while the borrow lives)
+        v = I.read(st, b[1])
+        if isinstance(v, VecV):
+            if v.gen is None:
+                v = VecV(v.len, v.cap, v.tag, I.newgen(), v.init)
+                I.write(st, b[1], v)
+            return [(st, PtrV(b[1], s.off, v.gen, False))]
+        return None
+    # any other tracked slice: readable up to its end
+    return [(st, PtrV(("slice", b, s.off + s.len), s.off, None, False))]
+
+
 @model("core::ptr::mut_ptr::<impl *mut T>::add", "core::ptr::const_ptr::<impl *const T>::add")
 def m_ptr_add(I, st, call):
     a, n = call.args
@@ -197,6 +216,10 @@ def m_ptr_copy(I, st, call):
         else:
             ok = False
             why.append("source is not a tracked Vec")
+    elif isinstance(src, PtrV) and isinstance(src.place, tuple) and src.place and src.place[0] == "slice" and isinstance(n, IntV):
+        if not st.entails(src.place[2] - src.off - n.aff):
+            ok = False
+            why.append("source range %r..+%r not within the borrowed slice (end %r)" % (src.off, n.aff, src.place[2]))
     elif isinstance(n, IntV):
         ok = False
         why.append("source pointer untracked")
